@@ -147,6 +147,24 @@ def r1_r2_site(ctx, fam, fname):
                        if e.idx > T.idx and e.recv() == 'self.manager' and
                        sid_ns_of(run.expand(e.expr), m, fam,
                                  'disconnect') == (t_sid, t_ns)]
+                for r_ in rel:
+                    iq = {k.arg: k.value for k in r_.expr.keywords}.get(
+                        'ignore_queue')
+                    key = (r_.lineno, 'release-local')
+                    if key not in seen:
+                        seen.add(key)
+                        ctx.check(is_const(iq, True), construct,
+                                  'the release after the handler is local: '
+                                  'manager.disconnect(..., ignore_queue='
+                                  'True)', key='release-local',
+                                  reason='the release that follows the '
+                                  'disconnect handler is called with '
+                                  'ignore_queue=%s: a pub/sub manager then '
+                                  'routes it through the queue and its local '
+                                  'step (server.disconnect) finds the client '
+                                  'already marked, so the owning host never '
+                                  'forgets the client' % txt(iq),
+                                  where=where(f, r_.node), rid='C04.R2')
                 key = (T.lineno, 'release', bool(rel))
                 if key not in seen:
                     seen.add(key)
@@ -569,7 +587,8 @@ def r9_refusal_contained(ctx, fam):
     def raiser(e):
         if e.kind == 'call' and e.callee() == '_trigger_event' and \
                 e.expr.args and is_const(e.expr.args[0], 'connect'):
-            return [{'TypeError'}, {'ConnectionRefusedError'}]
+            return [{'TypeError'}, {'ConnectionRefusedError'},
+                    {'RuntimeError'}]
         return None
     run = run_function(f, m, raiser=raiser)
     n = 0
@@ -577,6 +596,32 @@ def r9_refusal_contained(ctx, fam):
     for p in run.paths:
         trig = trigger_calls(p, 'connect')
         if not trig:
+            continue
+        # a connect handler that failed (any other exception) has not
+        # accepted the client
+        failed = [e for e in p.events if e.kind == 'caught' and
+                  e.extra is not None and e.extra.types == {'RuntimeError'}
+                  and e.extra.origin in trig]
+        if failed and p.normal:
+            S = sends(run, p)
+            types = [pk['type'] if pk else None for e_, pk, _ in S
+                     if e_.idx > failed[0].idx]
+            rel = [e for e in p.calls('disconnect')
+                   if e.recv() == 'self.manager']
+            key = ('fails-open', failed[0].lineno)
+            if key not in seen:
+                seen.add(key)
+                ctx.check('CONNECT' not in types and bool(rel), construct,
+                          'a connect handler that raised has not accepted '
+                          'the client', key='handler-error-accepts',
+                          reason='an exception of the connect handler other '
+                          'than ConnectionRefusedError is caught (line %d) '
+                          'and the request then takes the accepting branch '
+                          '(packets %s, %d release(s)): a handler that '
+                          'failed - e.g. a credential predicate raising on a '
+                          'malformed payload - admits the client' % (
+                              failed[0].lineno, types, len(rel)),
+                          where=where(f, failed[0].node))
             continue
         if p.exit == 'exc' and p.types == {'ConnectionRefusedError'}:
             n += 1
@@ -608,6 +653,43 @@ def r9_refusal_contained(ctx, fam):
     if not n:
         ctx.bad(construct, 'no-refusal-path', 'no path catches a '
                 'ConnectionRefusedError of the connect handler', where(f))
+
+
+def r10_can_disconnect(ctx):
+    """every implementation of can_disconnect answers true only through
+    is_connected (directly or through the inherited implementation): the
+    "being disconnected" mark and the membership are consulted by the gate
+    Server.disconnect() uses by default."""
+    m = ctx.model
+    n = 0
+    for c in m.classes.values():
+        f = c.methods.get('can_disconnect')
+        if f is None:
+            continue
+        n += 1
+        construct = '%s.can_disconnect' % c.name
+        sid, ns = f.params[1:3]
+        run = run_function(f, m)
+        for p in run.paths:
+            if p.exit != 'return' or p.value is None:
+                continue
+            v = strip_await(run.expand(p.value))
+            if is_const(v, None) or is_const(v, False):
+                continue
+            good = isinstance(v, ast.Call) and (
+                U(v.func) in ('self.is_connected',
+                              'super().can_disconnect') and
+                [U(a) for a in v.args] == [sid, ns])
+            ctx.check(good, construct, 'a true answer is the answer of '
+                      'is_connected(sid, namespace)', key='can-disconnect',
+                      reason='can_disconnect answers %s without asking '
+                      'is_connected: a client another thread / task has '
+                      'already marked as disconnecting is disconnected a '
+                      'second time (handler runs twice, the mark is left '
+                      'behind)' % txt(v), where=where(f))
+    if n < 4:
+        raise AnalysisError('only %d can_disconnect implementations found'
+                            % n)
 
 
 def r6_manager(ctx):
@@ -842,6 +924,9 @@ def run(ctx):
     ctx.rule('C04.R6', 'pending means not connected; duplicate connect '
              'returns None; pre_disconnect marks', floor=5)
     r6_manager(ctx)
+    ctx.rule('C04.R10', 'can_disconnect answers through is_connected',
+             floor=4)
+    r10_can_disconnect(ctx)
     ctx.rule('C04.R7', 'ConnectionRefusedError message/data table over '
              'len(args) in {0,1,2,3+}', floor=4)
     r7_refused(ctx)
